@@ -145,6 +145,10 @@ int c_var2h(int nvalvar, int nvalh,
             /* Loop */
             varindex++;
             if(varindex+1>=nvalvar) {
+                /* The series ends before the end of the period:
+                 * the period is not fully covered by data */
+                if(t2<end)
+                    miss = 1;
                 break;
             }
 
